@@ -69,16 +69,34 @@ type slotZeroer interface {
 	ZeroSlots(slotIdx int, endSlotIdx int) error
 }
 
+// slotsPerPage is the number of slot records in one 4 KiB page of an entry file (the slot table starts at offset 0).
+const slotsPerPage = 4096 / entrySize
+
 // zeroSlots clears the slot records [slotIdx, endSlotIdx) of an entry file. WriteSlice is the fallback for wrappers
 // without ZeroSlots: it prepends a 4-byte length, so the buffer is 4 bytes shorter than the range.
+// The range is cleared in pieces that each lie inside one page, from the TOP down: a write that spans several pages
+// can be cut at a page boundary when the process is killed, which would leave empty slots followed by stale ones - a
+// table on which the binary searches (firstEmptySlot, slotGe) go wrong after a restart. Top-down, whatever prefix of
+// the operation has happened leaves live slots followed by empty slots only.
 func zeroSlots(fw FileWrapper, slotIdx int, endSlotIdx int) error {
 	if endSlotIdx <= slotIdx {
 		return nil
 	}
-	if z, ok := fw.(slotZeroer); ok {
-		return z.ZeroSlots(slotIdx, endSlotIdx)
+	z, ok := fw.(slotZeroer)
+	if !ok {
+		return fw.WriteSlice(slotIdx, endSlotIdx, int64(entrySize*slotIdx), make([]byte, entrySize*(endSlotIdx-slotIdx)-unit32Size), false, true)
 	}
-	return fw.WriteSlice(slotIdx, endSlotIdx, int64(entrySize*slotIdx), make([]byte, entrySize*(endSlotIdx-slotIdx)-unit32Size), false, true)
+	for end := endSlotIdx; end > slotIdx; {
+		begin := (end - 1) / slotsPerPage * slotsPerPage
+		if begin < slotIdx {
+			begin = slotIdx
+		}
+		if err := z.ZeroSlots(begin, end); err != nil {
+			return err
+		}
+		end = begin
+	}
+	return nil
 }
 
 // FileWrap represents a file and includes both the buffer to the data
